@@ -52,7 +52,7 @@ def how_visible(w, occ):
         for u in s.uses:
             imp = M.imported(u)
             for n, e in imp.items():
-                if e is ent and n == occ.name:
+                if e is ent and n == occ.name.lower():
                     f = ["use"]
                     f.append("lvl%d" % min(lvl, 2))
                     if u.only is not None:
@@ -214,11 +214,11 @@ def run_case(ctx, i, rng):
                 # negative clause: a PRIVATE entity of another module must never be the answer
                 key = f"definition:{outcome}:{occ.ctx}:{occ.ent.kind}:{hv}"
                 sc = site_scope(w, occ)
-                if outcome == "null" and occ.name != occ.ent.name and occ.ent.module() is not None and sc is not None \
+                if outcome == "null" and occ.name.lower() != occ.ent.name and occ.ent.module() is not None and sc is not None \
                         and occ.ent.module().kind == "module" and use_paths(sc, occ.ent.module()) >= 2:
                     # the module-keyed USE tree cannot hold two different views (ONLY/rename sets) of one module
                     key = "use-tree:alias-of-entity-in-module-reached-by-several-use-paths"
-                if outcome in ("wrong-file", "wrong-line") and occ.name != occ.ent.name and sc is not None:
+                if outcome in ("wrong-file", "wrong-line") and occ.name.lower() != occ.ent.name and sc is not None:
                     g = entity_at(w, got)
                     if g is not None and g.name == occ.ent.name and g is not occ.ent:
                         # the rename `loc => rem` is applied to another entity that is also called `rem` (homonym) somewhere on the USE tree
